@@ -6,6 +6,7 @@ package pseq
 
 import (
 	"fmt"
+	"math"
 	"runtime/debug"
 	"strings"
 
@@ -229,12 +230,19 @@ func (r *stackRun) apply(op Op) string {
 		return r.check()
 	case "peek":
 		n := a % (len(r.ref) + 3)
+		if a >= 190 { // offsets at the end of the int range
+			ext := []int{math.MaxInt, math.MaxInt - 1, math.MaxInt - len(r.ref), 1 << 31, 1 << 32, 1<<63 - 1<<10}
+			n = ext[a%len(ext)]
+		}
 		if n >= len(r.ref) {
 			r.peekOut++
 		}
 		return r.checkPeek(n)
 	case "peekNeg":
 		n := -(a%3 + 1)
+		if a >= 190 {
+			n = []int{math.MinInt, math.MinInt + 1, -1 << 32, -math.MaxInt}[a%4]
+		}
 		r.peekNeg++
 		var got int
 		var ok bool
